@@ -842,6 +842,22 @@ theorem c20_gate_agrees_with_evaluated_source (op : Nat) (hop : op < 3) (allow :
   | 2, _ => cases allow <;> cases late <;> rcases ans with _ | (_ | _ | _) <;> decide
   | n + 3, h => exact absurd h (by omega)
 
+/-- **`replicate` — evaluated.**  For every combination of `allow_mutations`, callback present, `mutation_rate > 0`,
+    `inherit_expression`, "settings assigned to the live parent after construction" and "gene silenced in the parent",
+    the child the real `replicate()` returned is the child of the model (`childBase` + the random pass through the
+    child's gate): the parent's CURRENT gate settings and callback object, the inherited or default expression level,
+    generation + 1, the parent's hash, the same log flags — and the real parent was left exactly as it was. -/
+theorem c20_replicate_agrees_with_evaluated_source (allow cb rate inherit late silenced : Bool) :
+    Gen.replicateTable.lookup (allow, cb, rate, inherit, late, silenced) =
+      some (replScenario allow cb rate inherit late silenced) := by
+  cases allow <;> cases cb <;> cases rate <;> cases inherit <;> cases late <;> cases silenced <;> decide
+
+/-- The constructor's `for gene in genes: add_gene(gene)` with a duplicated name (first wins when immutable, last wins
+    with `allow_mutations`), as the real constructor did it. -/
+theorem c20_constructor_agrees_with_evaluated_source (allow : Bool) :
+    Gen.constructTable.lookup allow = some (some (constructScenario allow)) := by
+  cases allow <;> decide
+
 /-! ## Non-vacuity: concrete lineages and histories meeting the hypotheses -/
 
 section Examples
